@@ -542,3 +542,6 @@ V("c17-twin-unify-inlined", "C17", "-", "dask_array/_blockwise.py",
 V("c17-lower-skips-unify", "C17", "R17.3", "dask_array/_blockwise.py",
   "    def _lower(self):\n        if self.align_arrays:\n            _, arrays, changed = self._unified_args()\n            if changed:\n                args = []",
   "    def _lower(self):\n        if self.align_arrays:\n            arrays, changed = list(self.args[::2]), False\n            if changed:\n                args = []", expect="Blockwise._lower")
+
+V("c07-fusion-visits-deps-in-hash-order", "C07", "R07.1", "dask_array/_blockwise.py",
+  "                for dep_name in sorted(dependencies.get(node._name, ())):", "                for dep_name in dependencies.get(node._name, set()):", expect="_fusion_pass::set-order")
